@@ -24,7 +24,10 @@ Record recipient := { r_addr : str; r_domain : str; r_mailbox : str }.
 Inductive hook_ans := NoAns | Defer | Allow | Deny (code : Z) (text : str).
 
 (** What the MAIL FROM argument parsers found. *)
+(** SIZE parameter: absent, not a decimal number, or its decimal value (of any magnitude: the
+    session hands it to strconv.ParseInt(_, 10, 32), which refuses values above [int32_max]). *)
 Inductive size_param := SzNone | SzBad | SzVal (n : Z).
+Definition int32_max : Z := 2147483647.
 Inductive mail_parse :=
   | MBadSyntax                                   (* fromRegex does not match *)
   | MBadParams                                   (* parameters present, parseArgs fails *)
@@ -138,7 +141,9 @@ Definition step_mail_from (c : scfg) (s : session) (p : mail_parse) (h : hook_an
       match sz with
       | SzBad => Ok s (one 501) []
       | _ =>
-        if match sz with SzVal n => (max_bytes c <? n)%Z | _ => false end
+        if match sz with SzVal n => (int32_max <? n)%Z | _ => false end
+        then Ok s (one 501) []                       (* ParseInt: value out of range *)
+        else if match sz with SzVal n => (max_bytes c <? n)%Z | _ => false end
         then Ok s (one 552) []
         else match o with
         | None => Ok s (one 501) []
